@@ -103,6 +103,9 @@ pub struct TypeSpec {
 
 /// marker value of `TypeSpec::shared_arg`: every trait in its own stacked `#[derive_ex(..)]` attribute
 pub const STACKED: &str = "@stacked";
+/// marker value of `TypeSpec::shared_arg`: the definition comes out of a `macro_rules!` macro and its helper
+/// attributes (with their key / by expressions) arrive as `meta` fragments of the macro call
+pub const VIA_MACRO: &str = "@macro";
 
 pub const VNAMES: [&str; 5] = ["A", "B", "C", "D", "E"];
 
@@ -370,7 +373,7 @@ pub fn expander_accepts(entry: Entry, derived: &[Tr], item: &str) -> Result<(), 
 pub fn program(ts: &TypeSpec, derived: &[Tr], entry: Entry) -> String {
     let item = ts.item();
     let list = match ts.shared_arg {
-        Some(a) if a != STACKED => format!("{}, {}", names(derived).join(", "), a),
+        Some(a) if a != STACKED && a != VIA_MACRO => format!("{}, {}", names(derived).join(", "), a),
         _ => names(derived).join(", "),
     };
     let head = match entry {
@@ -383,10 +386,15 @@ pub fn program(ts: &TypeSpec, derived: &[Tr], entry: Entry) -> String {
     let has = |t: Tr| derived.contains(&t);
     let mut s = String::new();
     s.push_str("use derive_ex::{derive_ex, Ex};\nuse dxrt::{V, Pv, W, RecHasher};\n");
-    s.push_str(&head);
-    s.push('\n');
-    s.push_str(&item.print());
-    s.push('\n');
+    match (ts.shared_arg == Some(VIA_MACRO), crate::gen::macroize_helper_attrs(&head, &item.print())) {
+        (true, Some(m)) => s.push_str(&m),
+        _ => {
+            s.push_str(&head);
+            s.push('\n');
+            s.push_str(&item.print());
+            s.push('\n');
+        }
+    }
     s.push_str(&format!("type SelfTy = {};\n", ts.self_ty()));
     // hand-written supertraits the derived set lacks (never observed)
     let need_pe = !has(PartialEq) && (has(Eq) || has(PartialOrd) || has(Ord));
